@@ -79,7 +79,8 @@ LEVEL_TEXT = ("Kernel-checked Lean theorems state, for every length and limb con
               "compute the exact vector function (value identity, carry range, limb bounds, length); the models are run against the rebuilt "
               "library on every check over all sizes 1..70, carry chains stopping at every position, all shift counts and all permitted overlaps.")
 LEVEL_NOTE = ("Trusted: Lean kernel; the hand-written models are tied to the C by differential execution, not by translation; "
-              "the mpz layer and overlap behaviour are covered by the correspondence only.")
+              "the mpz layer has its own value-level theorems (part c03_mpz); overlap behaviour is proved on memory-level models (part c03_overlap), "
+              "which are again tied differentially.")
 
 PINS = [("mpn/generic/add_n.c", "mpn_add_n"), ("mpn/generic/sub_n.c", "mpn_sub_n"), ("mpn/generic/lshift.c", "mpn_lshift"), ("mpn/generic/rshift.c", "mpn_rshift"),
         ("mpn/generic/com_n.c", "mpn_com_n"), ("mpir.h", "mpn_neg_n"), ("mpir.h", "__GMPN_AORS_1"), ("mpir.h", "__GMPN_AORS"), ("mpir.h", "__GMPN_ADD"), ("mpir.h", "__GMPN_SUB"),
